@@ -153,3 +153,15 @@ pub use crate::{
     decode::{from_bytes, from_path, from_str, DecodeBeatmap, DecodeState},
     format_version::LATEST_FORMAT_VERSION,
 };
+
+/// Hooks for the out-of-tree verification harnesses; compiled only with
+/// `--cfg maxohn_rosu_map_verif`.
+#[cfg(maxohn_rosu_map_verif)]
+#[doc(hidden)]
+pub mod verif_hooks {
+    pub use crate::format_version::verif_try_version_from_line as try_version_from_line;
+    pub use crate::reader::{VerifDecoder as Decoder, VerifEncoding as Encoding};
+    pub use crate::section::hit_objects::verif_curve as curve;
+    pub use crate::section::hit_objects::verif_decode as hit_objects;
+    pub use crate::section::timing_points::verif_decode as timing_points;
+}
